@@ -96,6 +96,13 @@ def calibrate(yaml):
             n = 0
         if n == 1:
             fix.append(name)
+    try:
+        evs = wrap(E.DocumentStartEvent(tags={'!!': 't:s:'}), E.ScalarEvent(None, 'tag:yaml.org,2002:s', (False, False), 'a'))
+        if [e.tag for e in yaml.parse(yaml.emit(evs, Dumper=yaml.Dumper), Loader=yaml.Loader)
+                if isinstance(e, E.ScalarEvent)] == ['tag:yaml.org,2002:s']:
+            fix.append('D11e')
+    except Exception:
+        pass
     return fix
 
 
@@ -224,8 +231,12 @@ ECONF = {
     'keys':    dict(EBASE, MaxEvents=10, CollsAt='"key"', AAs=[], FSs=[False], CAs=['', 'a1']),
     # scalars that are or begin with a document marker word, or have one at a fold point; as keys, values, items, roots
     'marks':   dict(EBASE, MaxEvents=8, Vs=['word', 'docsep', 'dashkey', 'dotkey', 'dotsfold', 'dashfold'], Widths=[5, 80], AAs=[]),
-    'tagdocs': dict(EBASE, MaxEvents=8, MaxDocs=2, FSs=[], AAs=[], Vs=['word'], STs=['', 'hdl', 'local'], SIs=['tf', 'ff'],
-                    DTs=['', 'h1'], DXs=[False, True]),
+    # documents that differ in their %TAG tables (new handle, `!!` / `!` redefined) followed by documents without directives
+    'tagdocs': dict(EBASE, MaxEvents=8, MaxDocs=2, FSs=[], AAs=[], Vs=['word'], STs=['', 'hdl', 'local', 'core', 'st', 'bt'],
+                    SIs=['tf', 'ff'], DTs=['', 'h1', 'hs', 'hb']),
+    # empty and one-item collections as mapping keys: tag x implicit flag, followed by explicitly tagged nodes (serializer-shaped events)
+    'keytags': dict(EBASE, MaxEvents=9, CollsAt='"key"', AAs=[], Vs=['word'], STs=['', 'core'], SIs=['tf', 'ff'], CTs=['', 'local'],
+                    CIs=[True, False]),
     # thorough
     'struct+': dict(EBASE, MaxEvents=10, Vs=['word', 'empty', 'multiline'], MaxDocs=2),
     'styles+': dict(EBASE, MaxEvents=8, Vs=['word', 'empty', 'words', 'multiline', 'lead', 'trail', 'ind', 'nonascii', 'nl', 'nlnl',
@@ -240,10 +251,12 @@ ECONF = {
     'folds+':  dict(EBASE, MaxEvents=7, Vs=['long', 'multiline'], Ss=['none', 'folded', 'literal'], Widths=[5], LBs=['n', 'r', 'rn'],
                     FSs=[False]),
     'keys+':   dict(EBASE, MaxEvents=11, CollsAt='"key"', AAs=[], FSs=[False, True], CAs=['', 'a1'], CTs=['', 'local']),
+    'keytags+': dict(EBASE, MaxEvents=10, CollsAt='"key"', AAs=[], Vs=['word', 'empty'], STs=['', 'core', 'local'], SIs=['tf', 'ff', 'tt'],
+                     CTs=['', 'local', 'core'], CIs=[True, False], CAs=['', 'a1']),
     'any+':    dict(EBASE, Mode='"any"', MaxEvents=6, MaxDocs=6, SIs=['tf', 'ff'], AAs=['a1', ''], DVs=['', '2.0'],
                     DTs=['', 'badh'], FSs=[False]),
 }
-ETIERS = {'quick': ['struct', 'deep', 'attrs', 'opts', 'any', 'tagdocs', 'keys', 'marks'], 'thorough': ['struct+', 'deep', 'styles+', 'attrs+', 'dirs+', 'opts+', 'folds+', 'any+', 'tagdocs', 'keys+', 'marks']}
+ETIERS = {'quick': ['struct', 'deep', 'attrs', 'opts', 'any', 'tagdocs', 'keys', 'keytags', 'marks'], 'thorough': ['struct+', 'deep', 'styles+', 'attrs+', 'dirs+', 'opts+', 'folds+', 'any+', 'tagdocs', 'keys+', 'keytags+', 'marks']}
 KEEP = r'outcome \|-> "(done|EmitterError|Crash)"'
 METHODS = {"stream_start", "nothing", "first_document_start", "document_start", "document_end", "document_root",
            "first_flow_sequence_item", "flow_sequence_item", "first_flow_mapping_key", "flow_mapping_key",
